@@ -167,6 +167,8 @@ def choose_program(rng, in_types, dwarf, file_hint=None, bombs=True):
             return rng.choice(typed), {"bomb": False, "out": ["X"], "src": "typed-seed"}
         if not in_types and k < 0.25:
             return rng.choice(gen.SEED_PROGRAMS_CORE), {"bomb": False, "out": ["X"], "src": "seed"}
+        if not in_types and k < 0.31:
+            return rng.choice(gen.SEED_PROGRAMS_ASET), {"bomb": False, "out": ["X"], "src": "aset-seed"}
         if not in_types and k < 0.35:
             c = [q for q, f in gen.corpus() if f is None]
             if c:
@@ -421,6 +423,21 @@ def gen_history(rng, profile, faults=False, sweep=False, hostile=False, reuse=Fa
             vocs[vi] = rng.choice(kinds) if vi > 0 else rng.choice(kinds[:2])
             b.setup.append(P.step(0, "VOC", vi, *vocs[vi]))
 
+    voc_late = []
+    if vocs and rng.random() < 0.5:
+        # a vocabulary that is extended after queries were compiled against it
+        vi = len(vocs)
+        vocs[vi] = ("core",)
+        b.setup.append(P.step(0, "VOC", vi, "core"))
+        for t_ in rng.sample(["length", "elem", "add", "value", "[] length", "\"ab\" elem", "1 2 add", "1 value", "name", "offset"], 3):
+            b.setup.append(P.step(0, "PARSE", b.q(), b.prog(t_, 0), vi))
+        b.setup.append(P.step(0, "VOCADD", vi, "dw"))
+        vocs[vi] = ("core", "dw")
+        for t_ in rng.sample(["length", "elem", "add", "value", "[] length", "\"ab\" elem", "1 2 add", "1 value", "name", "offset"], 3):
+            ql = b.q()
+            b.setup.append(P.step(0, "PARSE", ql, b.prog(t_, 0), vi))
+            voc_late.append(ql)
+
     def parse_step(c, q, p, g=None):
         # in a plan that builds vocabularies, every compile names one
         if vocs:
@@ -499,6 +516,24 @@ def gen_history(rng, profile, faults=False, sweep=False, hostile=False, reuse=Fa
                 st = st0 + st + [P.step(c, "DROPQ", own_q)]
             else:
                 st, kept = task_steps(b, c, q, i, npulls, keep_at)
+            if kept is not None and not hostile and rng.random() < 0.2:
+                # the output stack goes straight in as the input of another execution, unlooked at
+                for s_ in st:
+                    if s_["op"] == "PULL" and len(s_["args"]) >= 2 and s_["args"][1] == str(kept):
+                        s_["args"].append("blind")
+                q2 = b.q()
+                text2 = rng.choice(["", "dup", "type", "\"%s\"", "[dup]", "drop", "swap", "over", "root name", "name", "offset", "length",
+                                    "elem", "1 add", "child offset", "attribute label", "entry offset", "unit offset"])
+                st = st + [parse_step(c, q2, b.prog(text2, 0), g)]
+                r2 = b.res()
+                st.append(P.step(c, "EXECO", r2, q2, kept))
+                for _ in range(rng.choice([1, 2, 4, PULL_CAP])):
+                    st.append(P.step(c, "PULL", r2))
+                st.append(P.step(c, "CANCEL", r2))
+                if rng.random() < 0.5:
+                    st.append(P.step(c, "RENDER", kept))
+                st.append(P.step(c, "DROPO", kept))
+                kept = None
             if kept is not None and not hostile:
                 # a value travels from this execution into another one
                 depth = 0
@@ -526,11 +561,23 @@ def gen_history(rng, profile, faults=False, sweep=False, hostile=False, reuse=Fa
                     text2, info2 = b.plan["progs"][sp]["text"], sinfo
                 extra = [parse_step(c, q2, b.prog(text2, 0), g),
                          P.step(c, "MKIN", i2, "O:%d:%d" % (kept, depth))]
-                if rng.random() < 0.5:
+                if voc_late and rng.random() < 0.5:
+                    # through a query compiled against a vocabulary that grew in the meantime
+                    q2 = rng.choice(voc_late)
+                    extra = [P.step(c, "MKIN", i2, "O:%d:%d" % (kept, depth))]
+                early_drop = rng.random() < 0.35
+                if early_drop:
+                    # only the clone on the new input stack is left of where the value came from
+                    extra.append(P.step(c, "DROPO", kept))
+                    if vals and rng.random() < 0.6:
+                        for (vv, ff, rr) in vals:
+                            extra.append(P.step(c, "DROPV", vv))
+                        extra.append(P.step(c, "DROPI", i))
+                elif rng.random() < 0.5:
                     extra.append(P.step(c, "RENDER", kept))
                 st2, _ = task_steps(b, c, q2, i2, pull_pattern(rng))
                 extra += st2
-                if rng.random() < 0.5:
+                if not early_drop and rng.random() < 0.5:
                     extra.append(P.step(c, "DROPO", kept))
                 queries.append((q2, b.plan["progs"].index({"text": text2, "mode": 0}), None, info2))
                 # splice: the derived work starts after the pull that keeps the value
